@@ -304,6 +304,21 @@ func anchoredAtStart(re *regexp.Regexp) bool {
 	return tree.Op == syntax.OpBeginText
 }
 
+// anchoredAtEnd: the pattern's last top-level element is \z / non-multiline $.
+// Every match of such a pattern ends at the end of the text, so FindAll
+// (which drops an empty match abutting the preceding match) yields at most
+// one match: the leftmost one.
+func anchoredAtEnd(re *regexp.Regexp) bool {
+	tree, err := syntax.Parse(re.String(), syntax.Perl)
+	if err != nil {
+		return false
+	}
+	for tree.Op == syntax.OpConcat && len(tree.Sub) > 0 {
+		tree = tree.Sub[len(tree.Sub)-1]
+	}
+	return tree.Op == syntax.OpEndText
+}
+
 // reChoose forks over the parses (exact leftmost-first choice); returns nil
 // for "no match".
 func reChoose(ex *Exec, parses []reParse) *reParse {
@@ -485,7 +500,7 @@ func init() {
 		}
 		ex := fr.ex()
 		bs := strBytes(ex.ts, args[1])
-		if all && (!anchoredAtStart(re) || len(bs) == 0) {
+		if all && ((!anchoredAtStart(re) && !anchoredAtEnd(re)) || len(bs) == 0) {
 			ex.unsupported("FindAllStringSubmatch of an unanchored pattern on a symbolic subject")
 		}
 		starts := len(bs)
